@@ -168,6 +168,8 @@ package workflow
 //@ func (*loopState).checkForDeadlocks$1
 //@   opt goroutine deadlockcheck
 //@   opt token wg
+//@   site call checkForDeadlocks#1 assert [every-re-check-uses-up-one-retry] callarg(checkForDeadlocks, 1, 1) == retries - 1 && retries > 0
+//@   captures retries > 0
 //@   requires wfloop(l) && nolocks() && wg != nil
 //
 // ---- the prepared workflow (representation invariant established by Prepare) ----
